@@ -16,7 +16,7 @@ from .. import vc2bytes as vb
 _ARCH = None
 
 
-def _tiny(prof, ver, level, fields, body, width=4):
+def _tiny(prof, ver, level, fields, body, width=4, eos_npo="zero"):
     """body: list of ('PIC', pn) | ('FRAG', pn) | ('SH',) | ('PAD',) | ('AUX',) ; returns sequence bytes"""
     f = vb.Fmt(profile=prof, version=ver, level=level, fields=fields, width=width)
     sh = vb.sequence_header_payload(f)
@@ -29,6 +29,12 @@ def _tiny(prof, ver, level, fields, body, width=4):
         elif b[0] == "FRAG":
             units.append(dict(code=frag, payload=vb.fragment0_payload(f, prof, b[1])))
             units.append(dict(code=frag, payload=vb.fragmentn_payload(f, prof, b[1], 2, 0, 0)))
+        elif b[0] == "F0":
+            units.append(dict(code=frag, payload=vb.fragment0_payload(f, prof, b[1])))
+        elif b[0] == "FN":
+            units.append(dict(code=frag, payload=vb.fragmentn_payload(f, prof, b[1], b[2], b[3], 0)))
+        elif b[0] == "SHDIFF":
+            units.append(dict(code=vb.PC_SH, payload=vb.sequence_header_payload(f, 1)))
         elif b[0] == "SH":
             units.append(dict(code=vb.PC_SH, payload=sh))
         elif b[0] == "PAD":
@@ -37,7 +43,7 @@ def _tiny(prof, ver, level, fields, body, width=4):
             units.append(dict(code=vb.PC_AUX, payload=b"hello"))
         elif b[0] == "PICNPO0":
             units.append(dict(code=pic, payload=vb.picture_payload(f, prof, b[1]), npo="zero"))
-    units.append(dict(code=vb.PC_EOS, payload=b"", npo="zero"))
+    units.append(dict(code=vb.PC_EOS, payload=b"", npo=eos_npo))
     return vb.assemble(units)[0]
 
 
@@ -76,6 +82,12 @@ def archetypes():
         ("BAD_nonconsecutive", _tiny("LD", 1, 0, False, P(0, 2))),
         ("BAD_odd_first_field", _tiny("HQ", 2, 0, True, P(1, 2))),
         ("BAD_level1_mixed", _tiny("HQ", 3, 1, False, P(0) + F(1))),
+        ("BAD_incomplete_fragmented_picture_at_end", _tiny("HQ", 3, 0, False, [("F0", 0), ("FN", 0, 1, 0)])),
+        ("BAD_picture_interleaved_with_fragments", _tiny("HQ", 3, 0, False, [("F0", 0), ("FN", 0, 1, 0), ("PIC", 1), ("FN", 1, 1, 1)])),
+        ("BAD_header_changed", _tiny("HQ", 2, 0, False, [("PIC", 0), ("SHDIFF",), ("PIC", 1)])),
+        ("BAD_eos_next_offset_13", _tiny("LD", 1, 0, False, P(0), eos_npo=13)),
+        ("BAD_level66_ends_after_header", _tiny("HQ", 2, 66, False, [("PIC", 0), ("SH",)])),
+        ("BAD_fragment_without_initial_fragment", _tiny("HQ", 3, 0, False, [("FN", 0, 1, 0)])),
         ("BAD_wrong_prev_offset", _tiny("HQ", 2, 0, False, P(0, 1))[:-4] + b"\x00\x00\x00\x01"),
     ]
     _ARCH = A + B
@@ -108,7 +120,7 @@ def run(ctx):
         if m["outcome"] == "crash":
             ctx.violation("C10|crash-alone|%s" % m["sig"], "archetype %s crashes the validator alone" % m["name"], {"list": [alone.index(m) + 1]})
     n_ok = sum(1 for m in alone if m["outcome"] == "accept")
-    if n_ok < 12 or len(alone) - n_ok < 4:
+    if n_ok < 12 or len(alone) - n_ok < 10:
         raise RuntimeError("archetype set degenerate: %s" % [(m["name"], m["outcome"], m["exc"]) for m in alone])
     wd = tlc.mkscratch("c10")
     mc = os.path.join(wd, "ConcatMC.tla")
@@ -130,7 +142,7 @@ def run(ctx):
     cases = [c for c in cases if c["list"]]
     if ctx.quick:
         # all pairs, and every triple whose middle element is one of 6 state-rich archetypes
-        rich = {1, 3, 5, 7, 8, 19}
+        rich = {1, 3, 5, 7, 8}
         cases = [c for c in cases if len(c["list"]) <= 2 or c["list"][1] in rich]
     outs = common.pmap(exec_list, [(c["list"], None) for c in cases])
     nviol = 0
